@@ -180,6 +180,7 @@ func (vc *VC) singleScriptOpt(target *Obligation, model bool, deep bool) string 
 		done map[string]bool
 	}
 	var qhyps []*qhyp
+	var extraDecls []string
 	emit := func(t string) {
 		b.WriteString("(assert " + t + ")\n")
 		if strings.Contains(t, "(forall ") {
@@ -195,7 +196,7 @@ func (vc *VC) singleScriptOpt(target *Obligation, model bool, deep bool) string 
 			termSet[t.name] = true
 			termSort[t.name] = t.sort
 		}
-		rounds := 1
+		rounds := 2
 		if deep {
 			rounds = 3
 			if goalSx != nil {
@@ -229,9 +230,25 @@ func (vc *VC) singleScriptOpt(target *Obligation, model bool, deep bool) string 
 					continue
 				}
 				for _, in := range instances(q.sx, fresh, 64) {
+					// existential witnesses of hypothesis instances become instantiation candidates
+					if strings.Contains(in.String(), "(exists ") {
+						var wit []skolem
+						in = skolemizeGoal(in, false, func(sort string) string {
+							nsk++
+							n := fmt.Sprintf("sk!%d", nsk)
+							extraDecls = append(extraDecls, fmt.Sprintf("(declare-const %s %s)", n, sort))
+							return n
+						}, &wit)
+						for _, w := range wit {
+							newTerms[w.name] = true
+							termSort[w.name] = w.sort
+						}
+					}
 					b.WriteString("(assert " + in.String() + ")\n")
 					total++
-					selectIndices(in, newTerms)
+					if deep {
+						selectIndices(in, newTerms)
+					}
 				}
 			}
 			added := false
@@ -258,6 +275,12 @@ func (vc *VC) singleScriptOpt(target *Obligation, model bool, deep bool) string 
 		}
 		if it.Ob == target {
 			gsx, _ := parseSx(goal)
+			// (=> A B) with quantifiers in A: assume A (so that it is instantiated like any hypothesis), prove B
+			for gsx != nil && gsx.head() == "=>" && len(gsx.L) == 3 && strings.Contains(gsx.L[1].String(), "(forall ") {
+				emit(gsx.L[1].String())
+				gsx = gsx.L[2]
+				goal = gsx.String()
+			}
 			if len(qhyps) > 0 {
 				instantiateAll(gsx)
 			}
@@ -265,7 +288,7 @@ func (vc *VC) singleScriptOpt(target *Obligation, model bool, deep bool) string 
 			if model {
 				b.WriteString("(get-model)\n")
 			}
-			return finishScript(decls, b.String())
+			return finishScript(append(decls, extraDecls...), b.String())
 		}
 		if it.Ob.Term != "true" {
 			emit(it.Ob.Term)
